@@ -2035,10 +2035,17 @@ class GreedStreamIASolver:
             self._iasolver.F[user_idx] /= np.linalg.norm(
                 self._iasolver.F[user_idx], 'fro')
 
-            #
+            # The precoders we have just set are the starting point of the
+            # new run (the initialization chosen by the user is restored
+            # afterwards, so that the next call of this method is a fresh
+            # start again)
+            user_initialize_with = self._iasolver.initialize_with
             self._iasolver.initialize_with = 'fix'
-            self._runned_iterations += self._iasolver.solve(
-                self._iasolver.Ns, self._iasolver.P)
+            try:
+                self._runned_iterations += self._iasolver.solve(
+                    self._iasolver.Ns, self._iasolver.P)
+            finally:
+                self._iasolver.initialize_with = user_initialize_with
             # xxxxxxxxxxxxxxxxxxxxxxxxxxxxxxxxxxxxxxxxxxxxxxxxxxxxxxxxxxxxx
 
             # xxxxxxxxxx Check if the new solution is better xxxxxxxxxxxxxx
